@@ -8,6 +8,18 @@ UNITS = ['client/QXmppAtmManager.cpp', 'client/QXmppTrustManager.cpp']
 ATM = 'QXmppAtmManager'
 
 
+def _loop_range_of(f, nid):
+    """if the expression is the loop variable of a range-for: the text of the range"""
+    n = f.nodes[f.skip(nid)]
+    if n['k'] != 'var':
+        return None
+    for b in f.blocks.values():
+        t = b.get('term')
+        if t and t.get('k') == 'rangefor' and t.get('loopvar') == n.get('decl') and 'range' in t:
+            return f.fmt(t['range'])
+    return None
+
+
 def _lambda_chain(prog, fn):
     return prog.lambdas_in(fn)
 
@@ -31,42 +43,104 @@ def r1(prog, run, hm):
     rid = run.rule('C18.R1', 'trust-message decisions: recorded only for a qualified sender (own account, or owner of the keys), applied only when the sender\'s '
                              'key is authenticated, postponed otherwise; own-device reflections and non-ATM elements are ignored', floor=11)
     lams = prog.lambdas_in(hm, recursive=False)
+    # roles instead of names: the sender is the local holding the bare JID of message.from(); the two decision sets are what the continuation hands to
+    # makeTrustDecisions(encryption, <authenticate>, <distrust>); the postponed list is the local list of key owners
+    tl0 = [n for _, n in hm.calls() if hm.cname(n).endswith('::trustLevel') and len(n.get('args', [])) >= 3]
+    sender = []
+    if tl0:
+        sv = hm.nodes[hm.skip(tl0[0]['args'][1])]
+        sender = [d for _, n in hm.all_nodes('decl') for d in n['decls'] if sv['k'] == 'var' and d.get('var') == sv.get('decl')]
+    if len(sender) != 1:
+        raise AnalysisBroken('C18.R1: the local holding the JID of the sender (second argument of trustLevel()) not found in handleMessage')
+    sender_decl, sender_name = sender[0]['var'], sender[0]['name']
+    sender_is_bare_from = sender[0].get('init') is not None and hm.fmt(sender[0]['init']) == 'QXmppUtils::jidToBareJid(p0.QXmppStanza::from())'
     cont = None
-    for l in lams:
-        if any((l.sym(n) or {}).get('name') == 'insert' for _, n in l.calls()) and any((l.sym(n) or {}).get('name') == 'append' for _, n in l.calls()):
-            cont = l
+    sets = {}
+    decide_call = None
+    for l in prog.lambdas_in(hm):
+        for i, n in l.calls(ATM + '::makeTrustDecisions'):
+            if len(n.get('args', [])) == 3:
+                a, b = (l.nodes[l.skip(x)] for x in n['args'][1:3])
+                if a['k'] == 'var' and b['k'] == 'var':
+                    # the continuation is the lambda that owns the two sets (the call itself may sit in a nested continuation that captured them)
+                    for c in prog.lambdas_in(hm):
+                        if any(d.get('var') == a['decl'] for _, dn in c.all_nodes('decl') for d in dn['decls']):
+                            cont = c
+                            sets = {a['decl']: 'apply:authenticate', b['decl']: 'apply:distrust'}
+                            decide_call = i if c.id == l.id else None
     if cont is None:
         raise AnalysisBroken('C18.R1: decision continuation not found in handleMessage')
+
+    def same_file_callee(n):
+        return [g for g in prog.callee_fns(cont, n) if g.entry is not None and g.file == cont.file and not g.qname.startswith(ATM + '::')]
     sinks = {}
+    sources = {}
     for i, n in cont.calls():
+        if i == decide_call:
+            continue
         name = (cont.sym(n) or {}).get('name')
         o = n.get('obj')
-        if o is None:
-            continue
-        on = cont.nodes[cont.skip(o)]
-        if name == 'insert' and on.get('name') in ('keysBeingAuthenticated', 'keysBeingDistrusted'):
-            sinks[i] = 'apply:' + on['name']
-        elif name in ('append', 'push_back') and 'Postponed' in (on.get('name') or ''):
+        on = cont.nodes[cont.skip(o)] if o is not None else {}
+        if on.get('k') == 'var' and on.get('decl') in sets and name == 'insert':
+            sinks[i] = sets[on['decl']]
+            loop = _loop_range_of(cont, n['args'][-1])
+            sources[i] = loop or cont.fmt(n['args'][-1])
+        elif on.get('k') == 'var' and 'QXmppTrustMessageKeyOwner' in (on.get('t') or '') and name in ('append', 'push_back', 'operator<<', 'prepend'):
             sinks[i] = 'postpone'
-    if len(sinks) != 3:
+        elif not n.get('op') and same_file_callee(n):
+            for a in n.get('args', []):
+                an = cont.nodes[cont.skip(a)]
+                if an['k'] == 'var' and an.get('decl') in sets:
+                    sinks[i] = sets[an['decl']]
+                    sources[i] = ' '.join(cont.fmt(x) for x in n['args'] if x != a)
+                elif an['k'] == 'var' and an.get('vk') == 'local' and 'QList<QXmppTrustMessageKeyOwner>' in (an.get('t') or '').replace('const ', ''):
+                    sinks[i] = 'postpone'
+    if sorted(set(sinks.values())) != ['apply:authenticate', 'apply:distrust', 'postpone']:
         raise AnalysisBroken('C18.R1: expected two apply sets and one postponed list, found %s' % sorted(sinks.values()))
+    # what goes into which set
+    run.instance(rid)
+    wrong = [(i, sinks[i], sources[i]) for i in sources
+             if ('QXmppTrustMessageKeyOwner::trustedKeys()' in sources[i]) != (sinks[i] == 'apply:authenticate')
+             or ('QXmppTrustMessageKeyOwner::distrustedKeys()' in sources[i]) != (sinks[i] == 'apply:distrust')]
+    if wrong:
+        i, what, src = wrong[0]
+        run.violation(rid, 'handleMessage#key-source#' + what.split(':')[1], cont.loc(i),
+                      'the set handed to makeTrustDecisions as keys to %s is filled from %s' % (what.split(':')[1], src[:80]))
+    else:
+        run.ok(rid, cont.loc(), 'keys to authenticate come from trustedKeys(), keys to distrust from distrustedKeys()')
+
+    def is_sender(f, nid):
+        n = f.nodes[f.skip(nid)]
+        return (n['k'] == 'var' and n.get('decl') == sender_decl and (n.get('outer') or f.id == hm.id)) or (f.id not in (cont.id, hm.id) and f.fmt(nid) == sender_name)
 
     def classify_cmp(f, nid):
         bo = f.binop(nid)
         if not bo or bo[0] not in ('==', '!='):
             return None
-        a, b = f.fmt(bo[1]), f.fmt(bo[2])
-        sides = (a, b)
-        if any(x == 'senderJid' for x in sides):
-            other = b if a == 'senderJid' else a
-            if 'QXmppConfiguration::jidBare()' in other:
-                return 'own', bo[0]
-            if 'QXmppTrustMessageKeyOwner::jid()' in other:
-                return 'owner', bo[0]
-        if any(x == 'p0' for x in sides) and any('QXmpp::TrustLevel::Authenticated' == x for x in sides):
+        for x, y in ((bo[1], bo[2]), (bo[2], bo[1])):
+            if is_sender(f, x):
+                other = f.fmt(y)
+                if 'QXmppConfiguration::jidBare()' in other:
+                    return 'own', bo[0]
+                if 'QXmppTrustMessageKeyOwner::jid()' in other:
+                    return 'owner', bo[0]
+        sides = (f.fmt(bo[1]), f.fmt(bo[2]))
+        if f.id == cont.id and any(x == 'p0' for x in sides) and any('QXmpp::TrustLevel::Authenticated' == x for x in sides):
             return 'auth', bo[0]
         return None
-    kinds = {classify_cmp(cont, i)[0] for i in range(len(cont.nodes)) if classify_cmp(cont, i)}
+    # which of the three tests the decisions depend on (looked for in the continuation and in the predicates it calls)
+    kinds = set()
+
+    def recording(f, nid, st):
+        c = classify_cmp(f, nid)
+        if c:
+            kinds.add(c[0])
+        return None
+    rec = cfgx.Evaluator(cont, {}, custom=recording)
+    for b in cont.blocks.values():
+        t = b.get('term')
+        if t and 'cond' in t:
+            rec.ev(t['cond'], None)
     if kinds != {'own', 'owner', 'auth'}:
         run.instance(rid)
         run.violation(rid, 'handleMessage#decision-operands', cont.loc(),
@@ -90,7 +164,7 @@ def r1(prog, run, hm):
                 qualified = own or owner
                 want = set()
                 if qualified and auth:
-                    want = {'apply:keysBeingAuthenticated', 'apply:keysBeingDistrusted'}
+                    want = {'apply:authenticate', 'apply:distrust'}
                 elif qualified:
                     want = {'postpone'}
                 site = '%s own=%s owner=%s auth=%s' % (cont.loc(), own, owner, auth)
@@ -105,12 +179,9 @@ def r1(prog, run, hm):
                                    (' no longer does %s' % sorted(miss)) if miss else ''))
     # operands: senderJid is the bare JID of message.from(); the trust level is asked for (encryption, senderJid, senderKey)
     run.instance(rid)
-    sj = [d for _, n in hm.all_nodes('decl') for d in n['decls'] if d['name'] == 'senderJid']
     tl = [n for _, n in hm.calls() if hm.cname(n).endswith('::trustLevel')]
-    ok = sj and 'init' in sj[0] and hm.fmt(sj[0]['init']) == 'QXmppUtils::jidToBareJid(p0.QXmppStanza::from())' and tl \
-        and [hm.fmt(a, inline=False) for a in tl[0]['args'][:3]] == ['encryption', 'senderJid', 'senderKey']
-    sk = [d for _, n in hm.all_nodes('decl') for d in n['decls'] if d['name'] == 'senderKey']
-    ok = ok and sk and 'QXmppE2eeMetadata::senderKey()' in hm.fmt(sk[0]['init'])
+    ok = bool(tl) and len(tl[0]['args']) >= 3 and hm.nodes[hm.skip(tl[0]['args'][1])].get('decl') == sender_decl and sender_is_bare_from \
+        and 'QXmppE2eeMetadata::senderKey()' in hm.fmt(tl[0]['args'][2]) and 'QXmppTrustMessageElement::encryption()' in hm.fmt(tl[0]['args'][0])
     if ok:
         run.ok(rid, hm.loc(), 'sender = bare(message.from()); trust level looked up for (encryption, sender, e2ee sender key)')
     else:
